@@ -46,11 +46,13 @@ CLAIMS = {
          "token rule starts with, and unterminated one-quote literals, do not lex. CEL.g4's parser rules are stated as a derivation relation over tokens (Model/Grammar.v) and the parser is proved SOUND against it "
          "(C01_accept_sound: whatever compile accepts is derivable from start : expr EOF, all tokens consumed); every derivable token list has each kind "
          "of bracket balanced, the brackets properly nested (a well-nested word over the three bracket kinds) and ends in a closing token (C01_accepted_shape, mutual induction over the derivation), so unbalanced, dangling or empty texts are "
-         "never accepted. PARTIAL because completeness against the whole grammar is not proved (C04 proves it for the operator grammar) and error positions of "
-         "syntax errors are ANTLR's own. "
+         "never accepted. The relation is inhabited by everything C04's round trip covers (C01_trees_derivable). PARTIAL because completeness against the whole grammar "
+         "is not proved (C04 proves that the rendering of every surface tree - operators, postfix forms, calls, collection and scalar literals - is accepted with the right tree; message "
+         "literals and double literals are outside it) and the positions of syntax errors are ANTLR's own (macro-error positions are the model's pos_for, in character columns, compared per case). "
          "The tie to the real ANTLR parser is the correspondence run: accept/reject AND the resulting tree are compared on all "
          "token strings up to length 4 over a 16-token alphabet (and 5 more alphabets up to length 3), random characters/tokens, generated "
-         "valid programs and their mutations; panics, empty error lists, empty error texts and out-of-source positions are failing inputs."),
+         "valid programs and their mutations; panics, empty error lists, empty error texts and out-of-source positions (0:0 included) are failing inputs; "
+         "escape literals of every kind, macro names at every arity, bracket nesting to depth 32 and sources to 4 KiB are part of the run."),
  "C04": ("Theorem C04_roundtrip (induction on the tree with continuation lemmas for the left-associative loops and the postfix loop, and an 'eventually, for all sufficient fuel' "
          "composition): for EVERY surface tree - identifiers, integer literals of either sign (a negative literal is the token pair '-' DIGITS and sits at prefix level), uint literals, true/false/null, string/bytes literal tokens, prefix runs of any length, * / %, + -, the seven relations, "
          "&& / || chains of any length, ?:, explicit parentheses, field selection, indexing, member and global calls of non-macro names, list and map literals - the token "
